@@ -255,12 +255,18 @@ func (r *schemaLoader) derefFrom(input interface{}, parentRefs []string, basePat
 		return nil
 	}
 
-	if err := r.resolveRef(ref, input, basePath); r.shouldStopOnError(err) {
+	// resolve a copy of the $ref and reset it in the input: decoding the target leaves a $ref there
+	// only if the target holds one, even when it is spelled exactly like the one we are following
+	followed := *ref
+	*ref = Ref{}
+	if err := r.resolveRef(&followed, input, basePath); r.shouldStopOnError(err) {
+		*ref = followed
 		return err
 	}
 
-	if ref.String() == "" || ref.String() == curRef {
-		// done with rereferencing
+	if ref.String() == "" {
+		// done with rereferencing: keep the last $ref followed, it tells where the content comes from
+		*ref = followed
 		return nil
 	}
 
